@@ -371,6 +371,17 @@ func c18Precedence(c *Ctx) {
 		}
 	}
 	c.check(okErr, rule, "FindRoute/not-routable-last", w.ipos(def), "no entry at all yields an error", "without any matching entry FindRoute does not end in an error")
+	// every hit comes from one of the three sources, in that order: nothing else (a remembered earlier match, a second
+	// table) answers before the configured order was consulted
+	nHit := 0
+	for _, r := range returnsUnder(f, nil) {
+		if len(r.Results) != 4 || !isNilConst(r.Results[3]) {
+			continue
+		}
+		nHit++
+		src := w.requires(f, r, okOf(exact), true) || scan.inExitRegion(r.Block()) || (w.requires(f, r, okOf(exact), false) && w.requires(f, r, okOf(def), true))
+		c.check(src, rule, fmt.Sprintf("FindRoute/hit-sources#%d", nHit), w.ipos(r), "a hit is the literal entry, a scan hit or the default entry", "FindRoute returns a route that is neither the literal entry, nor a hit of the configuration-order scan, nor the default entry (e.g. a remembered earlier match tried first): with overlapping wildcards the same host no longer always gets the first configured match")
+	}
 	// every error return requires the default lookup to have missed
 	for _, r := range returnsUnder(f, nil) {
 		if len(r.Results) == 4 && !isNilConst(r.Results[3]) {
